@@ -1216,8 +1216,19 @@ def c02g(chk):
         # the private helper's only caller is the pmf (its `n - k` relies on the pmf's guards)
         lb = prog.fn("sfs_core::utils::ln_binomial")
         if lb is not None:
-            callers = sorted({g_.path for g_, b_, t_ in prog.callers_of(lb.path)})
-            chk.ob("C02.g", "ln_binomial/only-called-by-the-pmf", callers == [HYPERGEOM], lb.loc(), "ln_binomial(n, k) assumes k <= n, which only hypergeometric_pmf's guards establish (callers: %s)" % callers, nontrivial=False)
+            import rules_panic as RP_
+            callers = []
+            unguarded = []
+            for g_, b_, t_ in prog.callers_of(lb.path):
+                callers.append(g_.path)
+                if g_.path == HYPERGEOM:
+                    continue
+                # another caller is fine if it establishes k <= n itself (a dominating comparison of the two arguments)
+                if not (len(t_["args"]) == 2 and RP_.guarded_sub(g_, b_, t_["args"][0], t_["args"][1])):
+                    unguarded.append(g_.path)
+            callers = sorted(set(callers))
+            chk.ob("C02.g", "ln_binomial/only-called-by-the-pmf", HYPERGEOM in callers and not unguarded, lb.loc(),
+                   "ln_binomial(n, k) assumes k <= n: hypergeometric_pmf's guards establish it, any other caller must test it before the call (callers: %s; without such a test: %s)" % (callers, unguarded), nontrivial=False)
         # impossible cases return 0.0
         z = [rv for _, _, p_, rv, _ in hp.assigns() if p_[0] == 0 and rv["k"] == "use" and isinstance(const_val(rv["op"]), dict) and const_val(rv["op"]).get("f") == "0.0"]
         chk.ob("C02.g", "hypergeometric_pmf/zero-when-observed>draws", len(z) >= 1, hp.loc(), "the impossible case returns 0.0")
